@@ -429,19 +429,19 @@ theorem sAny_node (enc : Enc) : ∀ (n : Nat) (v : Node) (rest : List RTok),
       cases seqVals (anyVal enc) (expandNodes vs) <;> simp [Except.map]
 
 theorem typedLeaf_cases (ty : Ty) (h : Ty.isTypedLeaf ty = true) :
-    ty = .bool ∨ ty = .i64 ∨ ty = .u64 ∨ ty = .i32 ∨ ty = .u32 ∨ ty = .f64 ∨ ty = .f32 ∨ ty = .str := by
+    ty = .bool ∨ ty = .i64 ∨ ty = .u64 ∨ ty = .i32 ∨ ty = .u32 ∨ ty = .i16 ∨ ty = .u16 ∨ ty = .i8 ∨ ty = .u8 ∨ ty = .f64 ∨ ty = .f32 ∨ ty = .str := by
   cases ty <;> simp_all [Ty.isTypedLeaf]
 
 /-- a typed scalar / string requested for a container: `invalid type` on the stream path and in the spec -/
 theorem sde_leaf_on_open (enc : Enc) (f : Nat) (ty : Ty) (h : Ty.isTypedLeaf ty = true) (o : Op) (toks : List RTok) :
     sde enc (f + 1) ty .open_ o toks = .error .type := by
-  rcases typedLeaf_cases ty h with rfl | rfl | rfl | rfl | rfl | rfl | rfl | rfl <;>
+  rcases typedLeaf_cases ty h with rfl | rfl | rfl | rfl | rfl | rfl | rfl | rfl | rfl | rfl | rfl | rfl <;>
     simp [sde, sLeaf, sStr, RTok.asScalar, Except.map]
 
 theorem valueOfN_leaf_on_cont (enc : Enc) (f : Nat) (ty : Ty) (h : Ty.isTypedLeaf ty = true) (o : Op) (v : Node)
     (hv : (∃ dfs, v = .obj dfs) ∨ (∃ vs, v = .arr vs)) : valueOfN enc (f + 1) ty o v = .error .type := by
   rcases hv with ⟨dfs, rfl⟩ | ⟨vs, rfl⟩ <;>
-    rcases typedLeaf_cases ty h with rfl | rfl | rfl | rfl | rfl | rfl | rfl | rfl <;> simp [valueOfN]
+    rcases typedLeaf_cases ty h with rfl | rfl | rfl | rfl | rfl | rfl | rfl | rfl | rfl | rfl | rfl | rfl <;> simp [valueOfN]
 
 /-- stream path on the tokens of one value: the spec's value; exactly the value's tokens are
 consumed, except that the body of a header value stays in the stream (`nodeLeft`) -/
